@@ -359,6 +359,10 @@ func (h *H) monitor() {
 			if proc < 0 || proc > w.maxLimitEver() {
 				h.viol("C17", "C17.processing-over", fmt.Sprintf("NumProcessing()=%d, largest limit configured %d", proc, w.maxLimitEver()))
 			}
+			if proc < w.Inflight {
+				// (a slot is taken before the worker function is entered and given back after it has returned)
+				h.viol("C17", "C17.processing-under", fmt.Sprintf("NumProcessing()=%d while %d worker functions are executing", proc, w.Inflight))
+			}
 			// (a counter that has wrapped around reads as billions: it is reported above, not iterated over)
 			if proc-w.lastProc < 1<<12 {
 				for k := w.lastProc; k < proc; k++ {
@@ -523,9 +527,12 @@ func (h *H) sampleQuiet() {
 					u++
 				}
 			}
-			want := min(u+infl, w.curLimit())
+			// (with TunePool calls that overlapped, which of them took effect last is not known to the harness: the
+			// smaller of its own record and the limit the worker reports is a sound lower bound)
+			lim := min(w.curLimit(), w.Wk.NumConcurrency())
+			want := min(u+infl, lim)
 			if infl < want {
-				h.viol("C03", "C03.underuse", fmt.Sprintf("%d jobs in flight at rest with %d runnable and limit %d", infl, u+infl, w.curLimit()))
+				h.viol("C03", "C03.underuse", fmt.Sprintf("%d jobs in flight at rest with %d runnable and limit %d", infl, u+infl, lim))
 				if len(w.Qs) > 1 {
 					h.viol("C15", "C15.starved", "with several queues bound a running worker at rest has a free slot and leaves a queue's pending job undispatched")
 				}
